@@ -262,10 +262,21 @@ class Discharger:
                 a = rx.peel(a)
                 if a["k"] == "mcall" and a["m"] in ("len", "count", "capacity") and not a["args"]:
                     return True
+                if a["k"] == "binary" and a["op"] in ("+", "*"):
+                    # a small multiple of / offset to a length (`2 * xs.len()`, `s.len() + 2`)
+                    l_, r_ = rx.peel(a["lhs"]), rx.peel(a["rhs"])
+                    small = lambda x: rx.int_const(x) is not None and 0 <= rx.int_const(x) < 2**15
+                    return (small(l_) and bounded(r_)) or (bounded(l_) and small(r_)) or (bounded(l_) and bounded(r_) and a["op"] == "+")
                 v = rx.int_const(a)
                 return v is not None and 0 <= v < 2**31
             ok = bool(calls) and all(cl["args"] and bounded(cl["args"][-1]) for cl in calls)
             return (True if ok else None), "const-arg", "%s panics only on capacity overflow; every requested capacity here is the length of an existing collection or a small literal: %s" % (name, [src(cl["args"][-1]) for cl in calls if cl["args"]])
+        if what.endswith("::to_digit") or what.endswith("::is_digit"):
+            name = what.split("::")[-1]
+            calls = find_all(f.body, lambda n: (n.get("k") == "mcall" and n["m"] == name) or (n.get("k") == "call" and n["f"]["k"] == "path" and n["f"]["segs"][-1] == name))
+            radices = [rx.int_const(cl["args"][-1]) if cl["args"] else None for cl in calls]
+            ok = bool(calls) and all(r is not None and 2 <= r <= 36 for r in radices)
+            return ok, "const-arg", "%s panics only for a radix above 36; radices used here: %s" % (name, radices)
         if what.endswith("::from_str_radix"):
             calls = find_all(f.body, lambda n: n.get("k") == "call" and n["f"]["k"] == "path" and n["f"]["segs"][-1] == "from_str_radix")
             radices = [rx.int_const(cl["args"][1]) if len(cl["args"]) == 2 else None for cl in calls]
@@ -1227,6 +1238,24 @@ class Discharger:
             vals = [rx.int_const(o) for o in ops]
             ok = all(0 <= v < 2**bits for v in vals)
             return ok, "arith", "all arithmetic in %s is over literals; every (sub)expression value %s fits %s" % (fn, sorted(set(vals))[-3:], ty)
+        # the hand-written radix conversion: DIGITS.chars()..to_digit(R)...fold(0, |acc, d| acc * R + d) over a digit run of at
+        # most M characters of radix ≤ R has the value of a number below R^M
+        rf = self.radix_fold(f, ops)
+        if rf is not None:
+            return rf[0], "arith", rf[1]
+        # arithmetic on lengths only: `2 * xs.len()`, `a.len() + b.len() + 1` — a collection never has more than 2^48 elements
+        # (address space), so a small multiple or a sum of a few lengths stays far below usize::MAX
+        def lenish(x):
+            x = rx.peel(x)
+            if x.get("k") == "mcall" and x["m"] in ("len", "count", "capacity") and not x["args"]:
+                return True
+            c_ = rx.int_const(x)
+            if c_ is not None:
+                return 0 <= c_ < 2**15
+            return x.get("k") == "binary" and x["op"] in ("+", "*") and lenish(x["lhs"]) and lenish(x["rhs"]) and (x["op"] == "+" or rx.int_const(x["lhs"]) is not None or rx.int_const(x["rhs"]) is not None)
+
+        if ops and all(o["op"] in ("+", "*") and lenish(o) for o in ops) and len(ops) <= 8:
+            return True, "arith", "all arithmetic in %s is a small multiple or a sum of collection lengths (%s): bounded by the address space, far below usize::MAX" % (fn, "; ".join(src(o)[:40] for o in ops[:3]))
         # arithmetic of the generated-name counter, wherever it is written (manager methods, a nested state struct, free
         # helpers of the manager module): decided on the interpreter's paths of the three allocating entry points
         ok_sem, det_sem = self.counter_arith_semantic(f)
@@ -1276,6 +1305,90 @@ class Discharger:
             if not bad and okc and wide:
                 return True, "arith", "%s adds 1/2 to its %s parameter(s) %s; every caller (%s) passes the manager counter self.var_index, which is bounded by the allocation count (one per AST node, 4 KiB input bound); %s" % (fn, "/".join(sorted({ptys[p_] for p_ in used})), sorted(used), sorted({x[0] for x in sites}), wdet)
         return False, "arith", "overflow-checked %s on run-time operands [%s] in %s: panics in debug, wraps in release" % (s["what"], s["operands"], fn)
+
+    def radix_fold(self, f, ops):
+        """(ok, detail) when every arithmetic operation of `f` belongs to a fold of the form
+        `TEXT.chars()[.filter_map/.map/.flat_map(.. to_digit(R) ..)].fold(0, |acc, d| acc * R + d)` where TEXT is the text a
+        bounded run of radix-R digits matched; None when the function has arithmetic of another kind."""
+        folds = find_all(f.body, lambda n: n.get("k") == "mcall" and n["m"] == "fold" and len(n["args"]) == 2 and rx.peel(n["args"][1]).get("k") == "closure")
+        if not folds or not ops:
+            return None
+        covered, dets = [], []
+        for fo in folds:
+            clo = rx.peel(fo["args"][1])
+            if len(clo["params"]) != 2 or rx.int_const(fo["args"][0]) != 0:
+                continue
+            pn = []
+            for p_ in clo["params"]:
+                while p_.get("k") in ("typed", "ref"):
+                    p_ = p_["pat"]
+                pn.append(p_.get("name") if p_.get("k") == "ident" else None)
+            body = rx.peel(clo["body"])
+            if body.get("k") == "block" and len(body["stmts"]) == 1 and body["stmts"][0]["k"] == "expr":
+                body = rx.peel(body["stmts"][0]["e"])
+            if None in pn or body.get("k") != "binary" or body["op"] != "+":
+                continue
+            def uncast(x):
+                x = rx.peel(x)
+                while x.get("k") == "cast":
+                    x = rx.peel(x["e"])
+                return x
+
+            a_, b_ = uncast(body["lhs"]), uncast(body["rhs"])
+            if rx.is_var(b_, pn[0]) or (b_.get("k") == "binary" and b_["op"] == "*"):
+                a_, b_ = b_, a_
+            if not (a_.get("k") == "binary" and a_["op"] == "*" and rx.is_var(b_, pn[1])):
+                continue
+            ml, mr = rx.peel(a_["lhs"]), rx.peel(a_["rhs"])
+            K = rx.int_const(mr) if rx.is_var(ml, pn[0]) else rx.int_const(ml) if rx.is_var(mr, pn[0]) else None
+            if K is None:
+                continue
+            # the digits: to_digit(R) somewhere in the receiver chain, on the characters of one variable
+            base, chain = rx.method_chain(rx.peel(fo["recv"]))
+            tds = find_all(fo["recv"], lambda n: n.get("k") == "mcall" and n["m"] == "to_digit" and len(n["args"]) == 1)
+            R = rx.int_const(tds[0]["args"][0]) if len(tds) == 1 else None
+            tname = rx.var_name(base)
+            if R is None or R > K or tname is None or not chain or chain[0][0] != "chars" or any(m_ not in ("chars", "filter_map", "map", "flat_map", "flatten", "rev", "copied") for m_, _, _ in chain):
+                continue
+            if any(m_ == "rev" for m_, _, _ in chain):
+                pass  # order does not change the bound
+            # TEXT is the closure parameter of a `.map` on a bounded digit run
+            hit = []
+
+            def w(n, fo=fo, tname=tname):
+                if n["t"] == "map" and isinstance(n.get("f"), dict) and find_all(n["f"], lambda x: x is fo):
+                    inner = n["p"]
+                    while inner["t"] in ("map", "ctx", "cut"):
+                        inner = inner["p"]
+                    fcl = rx.peel(n["f"])
+                    pnm = None
+                    if fcl.get("k") == "closure" and len(fcl["params"]) == 1:
+                        q_ = fcl["params"][0]
+                        while q_.get("k") in ("typed", "ref"):
+                            q_ = q_["pat"]
+                        pnm = q_.get("name") if q_.get("k") == "ident" else None
+                    if inner["t"] == "set" and pnm == tname:
+                        hit.append(inner)
+
+            try:
+                self.g.walk(self.b.fn_ir(f.key), w, follow=False)
+            except F.AnchorMissing:
+                pass
+            if not hit or hit[0]["max"] is None:
+                dets.append("fold in %s: the digit run feeding it is not bounded" % f.key)
+                continue
+            M = hit[0]["max"]
+            sfx = re.search(r"0_?(u8|u16|u32|u64|u128|usize)\b", src(fo["args"][0]))
+            bits = {"u8": 8, "u16": 16, "u32": 32, "u64": 64, "u128": 128, "usize": 64}.get(sfx.group(1) if sfx else "", 32)
+            okb = K ** M - 1 < 2**bits
+            dets.append("fold(0, |acc, d| acc * %d + d) over at most %d digits of radix %d: value ≤ %d %s 2^%d" % (K, M, R, K**M - 1, "<" if okb else "≥", bits))
+            if okb:
+                covered += find_all(clo, lambda n: n.get("k") == "binary" and n["op"] in ("+", "-", "*", "<<"))
+                # the digit is below the radix (≤ 36): converting it to any integer type changes nothing
+                self._digit_casts = getattr(self, "_digit_casts", []) + [x for x in find_all(clo, lambda n: n.get("k") == "cast") if rx.is_var(rx.peel(x["e"]), pn[1])]
+        if covered and all(any(o is c_ for c_ in covered) or rx.int_const(o) is not None for o in ops):
+            return True, "; ".join(dets)
+        return None
 
     def counter_arith_semantic(self, f):
         """(ok, detail) when `f` belongs to the manager machinery (reachable in the resolved program only from the managers'
